@@ -51,6 +51,28 @@ def run(ctx):
             ctx.disagree('scheduler history vs Model/SchedHier.v', input=j['text'][:800], options=j['opts'], command=j['cmd'], env=j['env'], detail=msg)
     ctx.count('histories replayed in the model', len(good))
     ctx.count('model actions replayed', nact)
+    # the same for ddmin: every task-generator instance is replayed in Model/SchedDdmin.v
+    import ddminmon
+    dcalls, dmeta = [], []
+    for j, r in zip(jobs, runs):
+        if r.hung or r.rc != 0:
+            continue
+        for inst in ddminmon.instances(r.events):
+            b = ddminmon.build(inst)
+            if 'error' in b:
+                ctx.disagree('ddmin history (reconstruction)', input=j['text'][:600], options=j['opts'], detail=b['error'],
+                             mutator=inst['gen']['mutator'], parallel=inst['gen']['parallel'])
+                continue
+            dcalls.append((81, b['arg']))
+            dmeta.append((j, b, inst))
+    dact = 0
+    for (j, b, inst), r_ in zip(dmeta, model.batch(dcalls)):
+        dact += b['nactions']
+        for msg in ddminmon.compare(r_, b):
+            ctx.disagree('ddmin history vs Model/SchedDdmin.v', input=j['text'][:800], options=j['opts'], command=j['cmd'], env=j['env'],
+                         mutator=inst['gen']['mutator'], gran=inst['gen']['gran'], parallel=inst['gen']['parallel'], detail=msg)
+    ctx.count('ddmin task-generator instances replayed', len(dmeta))
+    ctx.count('ddmin model actions replayed', dact)
     ctx.extra['runs'] = len(runs)
     ctx.assumptions += ['Pool delivers one result per generated task; the launcher\'s wrappers observe the real calls',
                         'token digests identify contents (sha1 over the token sequence)']
